@@ -36,7 +36,7 @@ THEOREMS = [
     for n in (
         "base_sets_disjoint superset_is_union superset_is_union_bitwise user_sets_separate inSet_subword table_partition mksetpv_refuses_iff mksetpv_spec mksetpv_named expanddof_digits expanddof2_spec lookup_sound lookup_complete mkdofpv_strict_iff mkdofpv_spec mkdofpv_positions mkdofpv_set mat_intersect_spec find_subseq_spec list_intersect_spec flippv_spec index2bool_spec normIndex_spec find_vals_spec find_rows_spec find_unique_spec find_duplicates_spec index2slice_cases index2slice_spec merge_lists_spec merge_lists_inserts mkusetmask_plus mksetpv_plus make_uset_sets make_uset_accepts make_uset_sets_partial make_uset_split_rows make_uset_ids make_uset_coords_partial upasetpv_spec scatter_spec upqsetpv_length upqsetpv_one_upstream qupOwn_spec "
         "upqsetpv_fuel_stable upqsetpv_fuel_suffices upqsetpv_cycle_diverges cyclic_not_acyclic QConn_iff upqsetpv_spec canFlag_of_flagged separate_of_check upqIdx_eq_upasetpv upasetpv_perm mat_intersect_order mat_intersect_keep1 mat_intersect_keep2 mat_intersect_keep0 mat_intersect_keep_other findse_spec findse_find? nodeIds_spec nodeIds_make xyz_triple_exact find_xyz_triples_exact "
-        "formtran_partition_identity formtran_aset_identity formtran_columns_are_target_set ulvsPath_spec ulvsLoop_chain formulvs_chain_is_product formulvs_noshortcut formulvs_cases formdrm_is_rows_of_formtran formdrm_same_se addulvs_consistent memberCol_spec usetprt_table_is_partition_listing mask_expression_is_union mask_expression_members mask_expression_append mask_expression_absorbs mkdofpv_expression find_subseq_mem_iff find_subseq_errors find_rows_other_length mat_intersect_duplicates index_helpers_refuse_together upqsetpv_never_returns_of_progress upqsetpv_cyclic_diverges formtran0_gset formtran0_gset_repeated formtran0_phg formtran0_pha formtran_mset_composition"
+        "formtran_partition_identity formtran_aset_identity formtran_columns_are_target_set ulvsPath_spec ulvsLoop_chain formulvs_chain_is_product formulvs_noshortcut formulvs_cases formdrm_is_rows_of_formtran formdrm_same_se addulvs_consistent memberCol_spec usetprt_table_is_partition_listing mask_expression_is_union mask_expression_members mask_expression_append mask_expression_absorbs mkdofpv_expression find_subseq_mem_iff find_subseq_errors find_rows_other_length mat_intersect_duplicates index_helpers_refuse_together upqsetpv_never_returns_of_progress upqsetpv_cyclic_diverges formtran0_gset formtran0_gset_repeated formtran0_phg formtran0_pha formtran_mset_composition dotChain_append ulvsPath_mono ulvsPath_split"
     ).split()
 ]
 TRUSTED = [
@@ -149,7 +149,8 @@ PARTIAL = (
     "(pvdof not Nodup; formtran0_gset_repeated is the smallest instance) is finding "
     "formtran-se0-gset-repeated-dof. formulvs / formdrm / addulvs are proved as products / rows / stored entries of "
     "formtran levels (formulvs_chain_is_product: left-to-right product along the tree path; associativity of the list "
-    "matrix product, i.e. ULVS(a->c) = ULVS(a->b) ULVS(b->c), is checked by the oracle only). usetprt: the returned "
+    "matrix product is not proved: ULVS(a->c) is proved to be the chain continued from ULVS(a->b) through the levels below b "
+    "(dotChain_append, ulvsPath_split), that this equals ULVS(a->b) ULVS(b->c) is checked by the oracle only). usetprt: the returned "
     "table is proved (usetprt_table_is_partition_listing), the printed text is not modelled. On the nas2cam files of "
     "pyYeti's tests (non-integer matrices) the matrix routines are compared numerically (model over exact rationals, "
     "1e-9 of the largest entry), not exactly. Float / mixed int-float inputs are "
@@ -2086,8 +2087,27 @@ def _oracle_tran(ctx, inp):
         elif what == "formulvs":
             c, sedn, kc, gset = inp["seup"], inp["sedn"], bool(inp["keepcset"]), bool(inp.get("gset"))
             r = _call(n2p.formulvs, nas, c, sedn, kc, False, gset)
+            if r[0] != "ok" and kc and c != sedn:
+                # a refusal where the defining relations give the answer
+                x0 = None
+                if sedn != 0:
+                    x0 = xvec(nset(sedn, "qrcb"))
+                elif gset:
+                    x0 = xvec(nset(0, "msoqrcb"))
+                elif 0 in nas["phg"]:
+                    x0 = xvec(nas["phg"][0].shape[1])
+                elif 0 in nas["pha"]:
+                    x0 = xvec(nas["pha"][0].shape[1])
+                try:
+                    xa0 = None if x0 is None else T.chain_avec(nas, masks, parent, upa, c, sedn, x0, gset)
+                except KeyError:
+                    xa0 = None
+                if xa0 is not None:
+                    ctx.fail("formulvs-raises", "formulvs raises %s although every level is defined" % r[0], full_inp,
+                             r[0], "the transformation to the a-set of the upstream SE")
+                return
             if r[0] != "ok" or np.ndim(r[1]) == 0:
-                return  # refusals are compared by the correspondence; nothing to restate
+                return  # other refusals are compared by the correspondence; nothing to restate
             ul = np.asarray(r[1])
             # (1) the chain: ULVS(c -> sedn) = ULVS(c -> p) @ ULVS(p -> sedn) for the SE p just below c
             p_ = parent.get(c)
